@@ -97,6 +97,17 @@ theorem routing_subset (ms : List M) (dofs : List (Nat × DofSpec)) (ps : List R
     (ht : totalSelected ms dofs = some t) (hlen : t ≤ ps.length) :
     updateSubset ms dofs ps = .ok (assignSubset ms dofs ps) := updateSubset_eq ms dofs ps t ht hlen
 
+/-- … in global form: entry `t` of the dof list receives the slice `ps[off_t : off_t + k_t]` with
+`off_t = Σ_{u<t} k_u` (`slices`), the `k` depend only on the kinds of the addressed models (`ksOf`), and
+the slices concatenate to the first `t` entries of the vector: disjoint, in order, without gaps. -/
+theorem routing_subset_slices (ms : List M) (dofs : List (Nat × DofSpec)) (ps : List Rat) (t : Nat)
+    (ht : totalSelected ms dofs = some t) (hlen : t ≤ ps.length) :
+    updateSubset ms dofs ps = .ok (applyEntries ms (dofs.zip (slices (ksOf ms dofs) ps))) ∧
+      (slices (ksOf ms dofs) ps).flatten = ps.take t := by
+  have hs := totalSelected_eq_sum ms dofs t ht
+  refine ⟨by rw [updateSubset_eq ms dofs ps t ht hlen, assignSubset_eq_slices ms dofs ps t ht], ?_⟩
+  rw [← hs]; exact slices_flatten _ _ (by omega)
+
 /-- one entry: the addressed model reads exactly `ps[0:k]` and nothing else of the vector -/
 theorem routing_one (m : M) (ps : List Rat) (dofs : DofSpec) (k : Nat) (hk : m.consumed dofs = some k)
     (hlen : k ≤ ps.length) : m.update ps dofs = .ok (m.withDofs (ps.take k) dofs, k) :=
